@@ -148,9 +148,15 @@ def list_files(path):
     return sorted(out)
 
 
-def judge(rep, parents, titles, placement, scratch, n_workers=None):
+def judge(rep, parents, titles, placement, scratch, n_workers=None, prepared=None):
+    """prepared = (report, sections, FormattedRst, note): a report formatted beforehand (by a formatter that has formatted other
+    reports since); otherwise the report is built, formatted and written here."""
     case = {'parents (-1 = root)': parents, 'titles': [repr(t) for t in titles], 'results': placement, 'n_workers': n_workers}
-    report, secs = build_report(parents, titles, placement)
+    if prepared:
+        report, secs, fmt, note = prepared
+        case['formatter'] = note
+    else:
+        report, secs = build_report(parents, titles, placement)
     path = os.path.join(scratch, 'report')
     shutil.rmtree(path, ignore_errors=True)
     invalid = [t for t in titles if t in INVALID]
@@ -161,7 +167,10 @@ def judge(rep, parents, titles, placement, scratch, n_workers=None):
     special = bool(invalid or clash or any(t in ('index', 'conf', 'figures') for t in titles))
     tag = 'invalid-title' if invalid else ('page-clash' if clash else 'ok')
     try:
-        write_report(report, path, n_workers)
+        if prepared:
+            fmt.write(path)
+        else:
+            write_report(report, path, n_workers)
         raised = None
     except ValueError as exc:
         raised = exc
@@ -230,6 +239,29 @@ def job(args):
     return rep
 
 
+SESSION_TREES = [((), (), 'each'), ((-1,), ('A',), 'each'), ((-1, -1), ('A', 'B'), 'each'), ((-1, 0), ('A', 'B'), 'last2'),
+                 ((-1, 0), ('B', 'A'), 'each'), ((-1, -1, 1), ('B', 'conf', 'A'), 'each')]
+
+
+def session_cases(rep, scratch):
+    """One Rst object formats two reports one after the other; both are written afterwards, in either order: each directory
+    must hold its own report."""
+    from valjean.javert.rst import Rst
+    from valjean.javert import representation as rpr
+    from valjean.javert.verbosity import Verbosity
+    for one, two in itertools.permutations(SESSION_TREES, 2):
+        for write_first in (0, 1):
+            rst = Rst(rpr.Representation(rpr.FullRepresenter(), verbosity=Verbosity.FULL_DETAILS))
+            prepared = []
+            for tree in (one, two):
+                report, secs = build_report(*tree)
+                prepared.append((tree, report, secs, rst.format_report(report=report, author='me', version='0')))
+            order = prepared if write_first == 0 else prepared[::-1]
+            for tree, report, secs, fmt in order:
+                note = f'one Rst object formatted {one} then {two}; this one written {"first" if tree is order[0][0] else "second"}'
+                judge(rep, tree[0], tree[1], tree[2], scratch, prepared=(report, secs, fmt, note))
+
+
 def depth_cases(rep, scratch):
     """Chains of depth 1..6 with ordinary titles: 5 levels are supported, the 6th must be refused."""
     for depth in range(1, 7):
@@ -276,6 +308,7 @@ def run(tier, seed):
                 for placement in ('each', 'last2'):
                     judge(rep, shape, titles, placement, scratch, n_workers=workers)
         depth_cases(rep, scratch)
+        session_cases(rep, scratch)
     finally:
         shutil.rmtree(scratch, ignore_errors=True)
     return rep
